@@ -20,7 +20,9 @@
 (*             of the query, "late" some milliseconds after it, "held" while *)
 (*             the application was shutting its input down in the Suspend of *)
 (*             the end phase, "held-resume" after the Resume that followed,  *)
-(*             "never"), whether all its calls had returned before the       *)
+(*             "never"; "expired" after the caller, a clipboard request with *)
+(*             a deadline of its own, had given up), whether all its calls   *)
+(*             had returned before the                                       *)
 (*             application closed Vaxis (before) and shortly after Close had *)
 (*             returned (after); end = how the application ended the session.*)
 (* A query call has to come back ("without ... deadlock", "replies arriving  *)
@@ -36,7 +38,7 @@ Init == l = 1
 Increasing(s) == \A i \in 1..(Len(s) - 1) : s[i] < s[i + 1]
 
 \* the terminal answered this caller's queries and the application kept Vaxis running after that
-Due(q, e) == \/ q.reply \in {"ontime", "late", "held-resume"}
+Due(q, e) == \/ q.reply \in {"ontime", "late", "held-resume", "expired"}
              \/ q.reply = "held" /\ e.end = "suspend-resume-close"
 Deadlocked(e) == {i \in 1..Len(e.queries) : Due(e.queries[i], e) /\ ~e.queries[i].before}
 StuckAfterClose(e) == {i \in 1..Len(e.queries) : ~e.queries[i].after}
